@@ -452,7 +452,8 @@ def graft(ctx, rec):
         ctx.violate('graft_norm', mk, 'nonzero_update_for_zero_direction',
                     tick=t, leaf=i)
       continue
-    if nb <= 10 * err:
+    if nb <= 10 * err or (u32 == U32 and nb < 1e-15):
+      # (float32: squares of entries below 1e-19 are flushed to zero)
       ctx.ev('graft_norm', 'vacuous')
       ctx.ev('graft_dir', 'vacuous')
       continue
